@@ -864,16 +864,23 @@ def run(ck):
     env.set_thread_sync(False)
     try:
         _wire_workload(ck)
+        # ---- directory child-cap keys judged on the stored directory bytes, every creation path (vf/checks/_c17_dir.py)
+        from vf.checks._c17_dir import dir_workload
+        dir_workload(ck)
     finally:
         env.set_thread_sync(True)
 
     ck.require_monitor("oracle-self-check", "derivation-oracle", "published-vector-oracle",
-                       "wire-lease-oracle", "wire-write-enabler-oracle")
+                       "wire-lease-oracle", "wire-write-enabler-oracle", "dir-child-capkey-oracle")
     ck.require_reach("tagged_hash", "tagged_pair_hash", "storage_index_hash", "ssk_write_enabler_hash",
                      "bucket_renewal_secret_hash", "bucket_cancel_secret_hash", "convergence_hash",
                      "mutable_rwcap_key_hash", "derive_mutable_keys.writekey",
                      "upload-allocate_buckets-observed", "checker-add_lease-observed",
-                     "MutableFileNode.get_write_enabler", "SecretHolder.get_renewal_secret")
+                     "MutableFileNode.get_write_enabler", "SecretHolder.get_renewal_secret",
+                     "dir-writeable-child-opened", "dir-format:sdmf", "dir-format:mdmf",
+                     "dir-path:create_dirnode+set_node", "dir-path:set_uri", "dir-path:set_children", "dir-path:set_nodes",
+                     "dir-path:create_dirnode(initial_children)", "dir-path:create_subdirectory(initial_children)",
+                     "dir-path:repack-after-initial_children")
     ck.exhaustive = False
     ck.assumptions.append("tags that no prose specification spells out are pinned from the hashutil.py tag table of the pinned tree")
 
